@@ -2,7 +2,7 @@ from ..jobs import CH
 
 H = "vf.harness.walk"
 META = {
-    "bounds": {"quick": "6 program shapes with parallel blocks (gates, sequential sub-blocks, aliases, macro parameters, loops, nested parallel blocks, idle gates), "
+    "bounds": {"quick": "7 program shapes with parallel blocks (gates, sequential sub-blocks, aliases, macro parameters, nested macros with coinciding parameter names, loops, nested parallel blocks, idle gates), "
                         "register size 3, all four indices -1..3",
                "thorough": "register sizes 3 and 4, indices -1..4"},
     "assumptions": ["busy = the prepare_all/measure_all definitions of the harness gate set; idle = I_<gate> definitions from add_idle_gates"],
@@ -13,7 +13,7 @@ META = {
 def jobs(tier):
     q = tier == "quick"
     out = []
-    for shape in range(6):
+    for shape in range(7):
         for size in ((3,) if q else (3, 4)):
             for i in range(-1, size + 1):
                 out.append(CH(name=f"c13_parallel_s{shape}_n{size}_i{i}", base="c13_parallel", func=f"{H}:c13_parallel",
